@@ -22,6 +22,8 @@ structure CommitMem (m mF : Mem) (nodeUpds : List MemUpd) (pubRuns : List Run) :
   runs : mF.runs = m.runs ++ pubRuns
   segs : mF.segs = m.segs
   proot : mF.proot = m.proot
+  ptop : mF.ptop = m.ptop
+  epoch : mF.epoch = m.epoch
   nextTxid : mF.nextTxid = m.nextTxid + 2
   walOpen : mF.walOpen = m.walOpen
 
@@ -48,7 +50,7 @@ theorem commit_mem (m : Mem) (cut nodeUpds : List MemUpd) (pub : List MemUpd) (p
     · rw [← hD]; simp
     · rw [← hD]; rfl
   rcases eB with eB | eB <;> subst eB <;> subst eD <;> subst hC <;> subst eA <;>
-    exact ⟨rfl, rfl, rfl, rfl, rfl, rfl, rfl, rfl, rfl⟩
+    exact ⟨rfl, rfl, rfl, rfl, rfl, rfl, rfl, rfl, rfl, rfl, rfl⟩
 
 theorem commitA_memUpds (cfg : Cfg) (m : Mem) (vol : PImg) (w : List Frag) (tx : Tx) (ho : m.walOpen = true) :
     memUpds (commitA cfg m vol w tx) =
@@ -80,24 +82,26 @@ theorem commit_post {cfg : Cfg} {T : List Tx} {fs : FS} {m : Mem} {cs : List CTx
       validLen (fs.steps (ioSteps (commitA cfg m fs.pv fs.wf tx))).wf =
         (fs.steps (ioSteps (commitA cfg m fs.pv fs.wf tx))).wf.length := by
   obtain ⟨hS, _⟩ := commitA_steps cfg m fs.pv fs.wf tx h.mwal
-  obtain ⟨_, hpj0, hpd0, hq0, hclean0, hread0⟩ := cut_state h ht
-  have hcom0 : committed (readAll (fs.steps (cutSteps cfg (m.ws fs.wf))).wf) = .ok cs := by rw [hread0]; exact h.com
+  obtain ⟨_, hpj0, hpd0, hst0, hclean0⟩ := cut_state h ht
   have hp0 : PagerOK (allNodes T) c (fs.steps (cutSteps cfg (m.ws fs.wf))).pd := by rw [hpd0]; exact h.pager
-  generalize hfs0 : fs.steps (cutSteps cfg (m.ws fs.wf)) = fs0 at hpj0 hpd0 hq0 hclean0 hread0 hcom0 hp0
+  have hs0 : StoreOK T cs (fs.steps (cutSteps cfg (m.ws fs.wf))).pd := by rw [hpd0]; exact h.store
+  generalize hfs0 : fs.steps (cutSteps cfg (m.ws fs.wf)) = fs0 at hpj0 hpd0 hst0 hclean0 hp0 hs0
+  have hcom0 := hst0.com
   have hrecs : txRecs m.nextTxid m.idLen tx = txRecs m.nextTxid (allNodes T).length tx := by rw [h.mlen]
   obtain ⟨hw1, hd1, hr1, hpd1, hpj1⟩ := steps_ww fs0 (frames (txRecs m.nextTxid m.idLen tx))
   generalize hfs1 : fs0.steps ((frames (txRecs m.nextTxid m.idLen tx)).map Step.ww) = fs1 at hw1 hd1 hr1 hpd1 hpj1
   have hrepNew : Rep (T ++ [tx]) fs0.pd (fs0.wf ++ frames (txRecs m.nextTxid m.idLen tx)) := by
-    have hr := (rep_log_prefix hclean0 hcom0 h.log hp0 m.nextTxid tx h.mtxid hf
+    have hr := (rep_log_prefix hclean0 hcom0 h.log hp0 hs0 m.nextTxid tx h.mtxid hf
       (3 * (txRecs m.nextTxid m.idLen tx).length)).2
     rw [← hrecs] at hr
     have := hr (Nat.le_refl _)
     rwa [List.take_of_length_le (by rw [frames_length]; omega)] at this
   have hq2 : WalQuiet (fs1.step .ws) := ⟨by simp [FS.step], by simp [FS.step]⟩
-  have hpj2 : (fs1.step .ws).pj = [] := by simp [FS.step, hpj1, hpj0]
+  have hpj2 : (fs1.step .ws).pj = fs.pj := by simp [FS.step, hpj1, hpj0]
   have hpd2 : (fs1.step .ws).pd = fs.pd := by simp [FS.step, hpd1, hpd0]
   have hwf2 : (fs1.step .ws).wf = fs0.wf ++ frames (txRecs m.nextTxid m.idLen tx) := by simp [FS.step, hw1]
-  obtain ⟨cs', c', hcom', hlog', hpager'⟩ := hrepNew
+  obtain ⟨cs', c', hcom', hlog', hpager', hstore'⟩ := hrepNew
+  rw [hpd0] at hstore'
   have hcN : c' ≤ (allNodes T).length := by
     have h1 := hpager'.lo
     rw [hpd0, h.full] at h1
@@ -105,7 +109,7 @@ theorem commit_post {cfg : Cfg} {T : List Tx} {fs : FS} {m : Mem} {cs : List CTx
   have hB : AllImgs (fs1.step .ws) (NG (allNodes (T ++ [tx])) c' fs.pd (allNodes T).length) := by
     intro p' himg
     rw [hpj2, hpd2] at himg
-    rw [isImg_nil _ _ himg]
+    rw [isImg_inert _ h.pj _ _ himg]
     refine ⟨Frame.refl _, h.pager.start, ?_, ?_, ?_⟩
     · rw [h.full]; exact hcN
     · rw [h.full]; exact Nat.le_refl _
@@ -117,7 +121,7 @@ theorem commit_post {cfg : Cfg} {T : List Tx} {fs : FS} {m : Mem} {cs : List CTx
     exact ⟨rfl, rfl, h.pager.start, by rw [h.full]; exact hcN, by rw [h.full]; exact Nat.le_refl _, Nat.le_refl _⟩
   have hdropF : (allNodes (T ++ [tx])).drop (allNodes T).length = tx.nodes ++ [] := by
     rw [allNodes_snoc]; simp
-  have hSy : Synced (fs1.step .ws) (m.ps fs.pv).pm := ⟨hpj2, by rw [hpd2]; exact h.mpm.symm⟩
+  have hSy : SyncedI (fs1.step .ws) (m.ps fs.pv).pm := ⟨by rw [hpj2]; exact h.pj, by rw [hpd2]; exact h.mpm.symm⟩
   have hl1 : (m.ps fs.pv).pm.i2eLen = (allNodes T).length := by
     show m.pm.i2eLen = _
     rw [h.mpm, h.full]
@@ -178,14 +182,18 @@ theorem commit_post {cfg : Cfg} {T : List Tx} {fs : FS} {m : Mem} {cs : List CTx
       exact committed_full hcom0 _ _ tx
     rw [h1] at hcom'
     exact (Except.ok.inj hcom').symm
-  have hnle : ¬ m.nextTxid ≤ (scan cs).ckpt := by have := h.mtxid; omega
+  have hnle : ¬ m.nextTxid ≤ (scan cs).ckpt := by have := h.mtxid; have := h.log.ckptle; omega
   have hckEq : (scan cs').ckpt = (scan cs).ckpt := by rw [hcsEq, scan_snoc_body]
   refine ⟨cs', c', ?_, ?_⟩
-  · refine { pj := hSF.1, quiet := ⟨by rw [hdF, hwF]; exact hq2.wdur, by rw [hrF]; exact hq2.ren⟩,
-             com := by rw [hwF, hwf2]; exact hcom', log := hlog',
+  have hscEq := scan_snoc_body cs m.nextTxid (allNodes T).length tx
+  have hFr : Frame fs.pd fsF.pd := hNGF.frame
+  · refine { pj := hSF.1,
+             wal := WalStable.of_quiet ⟨by rw [hdF, hwF]; exact hq2.wdur, by rw [hrF]; exact hq2.ren⟩ (by rw [hwF, hwf2]; exact hcom'),
+             log := hlog',
              pager := hNGF.pagerOK h.pager.booted (by rw [hlenN]; exact Nat.le_refl _),
+             store := hFr.store hstore',
              full := ?_, mpm := hpmF, mlen := ?_, mstart := ?_, mexts := ?_, mruns := ?_, msegs := ?_, mroot := ?_,
-             mtxid := ?_, mwal := ?_ }
+             mptop := ?_, mepoch := ?_, mtxid := ?_, mwal := ?_ }
     · rw [hSF.2, lenF, hlenN]
     · rw [hCM.idLen, hMF.inc, h.mlen, hlenN]
     · rw [hCM.idStart]
@@ -204,9 +212,15 @@ theorem commit_post {cfg : Cfg} {T : List Tx} {fs : FS} {m : Mem} {cs : List CTx
             (runOf ⟨m.nextTxid, body (allNodes T).length tx⟩).props.isEmpty) = true := by
           simpa [runOf, edgesOf_body, propsOf_body] using hr
         simp [logRuns, hnle, hr, hr', runOf, edgesOf_body, propsOf_body]
-    · rw [hCM.segs, h.msegs]
-    · rw [hCM.proot, h.mroot]
-    · rw [hCM.nextTxid, hckEq]; have := h.mtxid; omega
+    · rw [hCM.segs, h.msegs, hcsEq, hscEq]
+      have : segEdges fsF.pd = segEdges fs.pd := by funext k; simp [segEdges, segFind, hFr.segs]
+      rw [this]
+    · rw [hCM.proot, h.mroot, hcsEq, hscEq]
+    · rw [hCM.ptop, h.mptop, hcsEq, hscEq]
+    · rw [hCM.epoch, h.mepoch, hcsEq, hscEq]
+    · rw [hCM.nextTxid, hcsEq, hscEq]
+      show max (scan cs).maxTxid m.nextTxid < m.nextTxid + 2
+      have := h.mtxid; omega
     · rw [hCM.walOpen, h.mwal]
   · rw [hwF, hwf2]
     have hw0 : fs0.wf = frames (readAll fs0.wf) := clean_eq_frames _ hclean0
